@@ -513,7 +513,8 @@ class JunctionCompartment(Compartment):
                 net_inflow += link.vals[ti]  # If not part of a duration group, get scalar flow from Link.vals
 
         # Next, get the total outflow. Note that the parameters are guaranteed to be in proportion units here
-        outflow_fractions = [link.parameter.vals[ti] for link in self.outlinks]
+        # As for all other transitions, a negative parameter value means no flow (never a reverse flow)
+        outflow_fractions = [max(link.parameter.vals[ti], 0.0) for link in self.outlinks]
         total_outflow = sum(outflow_fractions)
 
         if total_outflow == 0 and not np.any(net_inflow):
@@ -544,7 +545,7 @@ class JunctionCompartment(Compartment):
 
         if self.vals[0] > 0:
             # Work out the outflow fractions
-            outflow_fractions = np.array([link.parameter.vals[0] for link in self.outlinks])
+            outflow_fractions = np.array([max(link.parameter.vals[0], 0.0) for link in self.outlinks])
             outflow_fractions /= np.sum(outflow_fractions)
 
             # Assign the inflow directly to the outflow compartments
@@ -586,7 +587,7 @@ class ResidualJunctionCompartment(JunctionCompartment):
         outflow_fractions = np.zeros(len(self.outlinks))
         for i, link in enumerate(self.outlinks):
             if link.parameter is not None:
-                outflow_fractions[i] = link.parameter.vals[ti]
+                outflow_fractions[i] = max(link.parameter.vals[ti], 0.0)  # A negative value means no flow (never a reverse flow)
             else:
                 outflow_fractions[i] = 0
 
@@ -620,7 +621,7 @@ class ResidualJunctionCompartment(JunctionCompartment):
             outflow_fractions = np.zeros(len(self.outlinks))
             for i, link in enumerate(self.outlinks):
                 if link.parameter is not None:
-                    outflow_fractions[i] = link.parameter.vals[0]
+                    outflow_fractions[i] = max(link.parameter.vals[0], 0.0)
                 else:
                     outflow_fractions[i] = 0
 
